@@ -1,5 +1,5 @@
 (* Ties between hand-written lexer model parts and tables regenerated from the source. *)
-From NV Require Import Model.Base Gen.LexTables Gen.Dict Model.NumReExpected.
+From NV Require Import Model.Base Gen.LexTables Gen.Dict Gen.Catalogue Model.NumReExpected Model.CatalogueExpected.
 
 Lemma int_pattern_tie :
   String.eqb INT_LITERAL_PATTERN_tree expected_INT_LITERAL_PATTERN_tree = true /\
@@ -24,4 +24,10 @@ Lemma parsers_known :
                               s "parse_string_literal"; s "parse_identifier"; s "parse_whitespace";
                               s "parse_line_comment"; s "parse_multi_line_comment"; s "parse_operator";
                               s "parse_brackets"]) parsers = true.
+Proof. vm_compute. reflexivity. Qed.
+
+(* every published (pinned) catalogue entry is in today's catalogue with exactly the same text *)
+Lemma catalogue_tie :
+  forallb (fun kv => match assoc (fst kv) catalogue with Some t => str_eqb t (snd kv) | None => false end)
+          expected_catalogue = true.
 Proof. vm_compute. reflexivity. Qed.
